@@ -9,6 +9,10 @@ mod iso;
 mod mutate;
 mod xcorpus;
 
+// Every SelectExecutor allocates a zeroed 10 MiB arena per query; pool those blocks (see vcore::bigalloc)
+#[global_allocator]
+static GLOBAL: vcore::bigalloc::ArenaCache = vcore::bigalloc::ArenaCache;
+
 fn usage() -> ! {
     eprintln!("usage: totalcheck check <C23|C24> <quick|thorough> | totalcheck replay <path>");
     std::process::exit(2)
